@@ -847,7 +847,8 @@ Print Assumptions C03_reverse_reaction.
     proof/C03_ReactorSpec.v, written out here): there are a base graph hb (the substrate, or the substrate with some
     implicit hydrogens written as H atoms), a valid match m and the glued graph T with g = T or g = _explicit_h(T), and
     (a) the reactant side of g has the SUBSTRATE's element counts (hydrogen = atoms + counts), total charge and — between
-        substrate atoms — exactly the substrate's bonds;
+        substrate atoms — exactly the substrate's bonds; atom by atom, every substrate atom is an atom of g whose reactant
+        tuple is the substrate's up to the hydrogen count (a count may have become explicit H atoms);
     (b) if the rule is balanced both sides of g have the same element counts and charge;
     (c) every matched atom of T carries the rule atom's element, hydrogen-count change and charges and every other atom is
         unchanged; the changed bonds of T are exactly the m-images of the rule's changed bonds with equal order changes,
@@ -865,6 +866,8 @@ Theorem C03_its_list_instances : forall (inp : rin) (rc : its) (l r : molg) (gs 
     (forall e : N, elem_count e (fst (its_decompose g)) = elem_count e (mol_of_host (i_host inp))) /\
     total_charge (fst (its_decompose g)) = total_charge (mol_of_host (i_host inp)) /\
     (forall a b : N, In a (node_ids (i_host inp)) -> In b (node_ids (i_host inp)) -> bondG g a b = adj (i_host inp) a b) /\
+    (forall (n : N) (a : nattr), label (i_host inp) n = Some a ->
+       exists a' : inode, label g n = Some a' /\ set_hc (iG a') 0 = set_hc a 0) /\
     (balancedb rc = true ->
        (forall e : N, elem_count e (fst (its_decompose g)) = elem_count e (snd (its_decompose g))) /\
        total_charge (fst (its_decompose g)) = total_charge (snd (its_decompose g))) /\
